@@ -79,9 +79,32 @@ class Model:
             nr = False if default_false else self.dn
         return nr
 
-    def _put(self, k, v, e):
+    def _put(self, k, v, e, flags=None):
         self.version += 1
+        if getattr(self, "serde", None) is not None:
+            # with a serializer the server holds the serialized form and the flags - the caller's explicit flags if given (0 too),
+            # else the serializer's - and a read hands back what the serializer makes of that pair
+            payload, f = self.serde.serialize(k, v)
+            v = payload.encode("ascii") if isinstance(payload, str) else payload
+            self.item_flags[k] = flags if flags is not None else f
         self.d[k] = [v, 0, self._exp(e), self.version, self.clock.now]
+
+    def _out(self, k, raw):
+        if getattr(self, "serde", None) is None:
+            return raw
+        # what the python-memcache flag convention says a stored pair means (written here, not taken from the library): 0 bytes,
+        # 1 a pickle, 2 / 4 a decimal number (memcached pads a counter it shortened with blanks), 16 UTF-8 text
+        f = self.item_flags.get(k, 0)
+        if f == 0:
+            return raw
+        if f & 1:
+            import pickle
+            return pickle.loads(raw)
+        if f & (2 | 4):
+            return int(raw.decode("ascii").strip())
+        if f & 16:
+            return raw.decode("utf-8")
+        return raw
 
     def step(self, r):
         """-> ("ok", value) | ("exc", ExceptionClass)"""
@@ -113,17 +136,17 @@ class Model:
                     failed.append(kk)
             return ("ok", failed)
         if op in ("set", "setitem"):
-            self._put(k, r["value"], r.get("expire", 0))
+            self._put(k, r["value"], r.get("expire", 0), r.get("flags"))
             return ("ok", None if op == "setitem" else True)
         if op == "set_many":
             for kk, v in r["values"].items():
-                self._put(kk, v, r.get("expire", 0))
+                self._put(kk, v, r.get("expire", 0), r.get("flags"))
             return ("ok", [])
         if op in ("add", "replace"):
             it = self.live(k)
             ok = (it is None) if op == "add" else (it is not None)
             if ok:
-                self._put(k, r["value"], r.get("expire", 0))
+                self._put(k, r["value"], r.get("expire", 0), r.get("flags"))
             return ("ok", True if self._nr(r) else ok)
         if op in ("append", "prepend"):
             it = self.live(k)
@@ -142,27 +165,27 @@ class Model:
                 res = False
             else:
                 res = True
-                self._put(k, r["value"], r.get("expire", 0))
+                self._put(k, r["value"], r.get("expire", 0), r.get("flags"))
             return ("ok", True if self._nr(r, True) else res)
         if op in ("get", "getitem"):
             it = self.live(k)
             if op == "getitem" and it is None:
                 return ("exc", KeyError)
-            return ("ok", None if it is None else it[0])
+            return ("ok", None if it is None else self._out(k, it[0]))
         if op == "gets":
             it = self.live(k)
-            return ("ok", (None, None) if it is None else (it[0], ("token", it[3])))
+            return ("ok", (None, None) if it is None else (self._out(k, it[0]), ("token", it[3])))
         if op in ("gat", "gats"):
             it = self.live(k)
             if it is not None:
                 it[2] = self._exp(r.get("expire", 0))
             if op == "gat":
-                return ("ok", None if it is None else it[0])
-            return ("ok", (None, None) if it is None else (it[0], ("token", it[3])))
+                return ("ok", None if it is None else self._out(k, it[0]))
+            return ("ok", (None, None) if it is None else (self._out(k, it[0]), ("token", it[3])))
         if op == "get_many":
-            return ("ok", {kk: self.live(kk)[0] for kk in r["keys"] if self.live(kk) is not None})
+            return ("ok", {kk: self._out(kk, self.live(kk)[0]) for kk in r["keys"] if self.live(kk) is not None})
         if op == "gets_many":
-            return ("ok", {kk: (self.live(kk)[0], ("token", self.live(kk)[3])) for kk in r["keys"] if self.live(kk) is not None})
+            return ("ok", {kk: (self._out(kk, self.live(kk)[0]), ("token", self.live(kk)[3])) for kk in r["keys"] if self.live(kk) is not None})
         if op == "touch":
             it = self.live(k)
             if it is not None:
@@ -251,6 +274,8 @@ def run_history(case):
                    **({"allow_unicode_keys": True} if cfg.get("allow_unicode_keys") else {}), **({"ignore_exc": True} if cfg.get("ignore_exc") else {}))
     universe = KEYS + (UKEYS if cfg.get("allow_unicode_keys") else [])
     model = Model(clock, cfg.get("default_noreply", True))
+    model.item_flags = {}
+    model.serde = skw.get("serde")
     model.refuse = dict(cfg.get("refuse") or {})
     pfx = cfg.get("key_prefix", b"")
     pfx = pfx.encode("ascii") if isinstance(pfx, str) else pfx
@@ -336,7 +361,7 @@ def run_history(case):
             raise Violation(["net-flags", op], "fake network flagged %r: %s" % (env.net.flags[:2], what))
     # final state
     res = env.call(c.get_many, universe)
-    want = {k: model.live(k)[0] for k in universe if model.live(k) is not None}
+    want = {k: model._out(k, model.live(k)[0]) for k in universe if model.live(k) is not None}
     if res[0] != "ok" or not _match(res[1], want, tokens):
         raise Violation(["final-state"], "final get_many returned %r, the map model holds %r after history %r (%s, cfg %r, per-step key spelling %r)"
                         % (res, want, desc_hist, kind, cfg, case.get("spell")))
@@ -441,6 +466,21 @@ def exhaustive_cases(tier, seed):
                        "steps": [{"op": "set", "key": K, "vspec": NV[a], "noreply": False}, {"op": "get", "key": K}, {"op": "add", "key": "k1", "vspec": NV[b], "noreply": False},
                                  {"op": "replace", "key": K, "vspec": NV[b], "noreply": False}, {"op": "get_many", "keys": [K, "k1", "k2"]}, {"op": "delete", "key": K, "noreply": False},
                                  {"op": "set_many", "values": {}, "noreply": False}, {"op": "gets", "key": "k1"}]}
+    # numbers and explicit flags through a serializer: a counter stored as an int, decremented across a digit boundary (the server
+    # pads it with blanks) and read back; explicit flags - 0 among them - override the serializer's
+    for kind in ("client", "pooled", "hash"):
+        for start, delta in ((10, 1), (100, 1), (1000, 1), (18446744073709551615, 2 ** 63), (7, 7), (9, 1)):
+            yield {"kind": kind, "cfg": {"key_prefix": b"", "default_noreply": False, "serde": "pickle"},
+                   "steps": [{"op": "set", "key": K, "vspec": ("int", start), "noreply": False}, {"op": "get", "key": K}, {"op": "decr", "key": K, "delta": delta},
+                             {"op": "get", "key": K}, {"op": "gets", "key": K}, {"op": "incr", "key": K, "delta": delta}, {"op": "get_many", "keys": [K, "k1"]}]}
+        for fl, vals in ((0, [("str", "txt"), ("int", 42), ("bytes", b"raw"), ("list", [("int", 1)])]), (None, [("str", "txt"), ("int", 42), ("bytes", b"raw"), ("list", [("int", 1)])]),
+                         (16, [("str", "txt"), ("bytes", b"raw")]), (2, [("int", 42), ("bytes", b"42")])):
+            for v in vals:
+                steps = [{"op": "set", "key": K, "vspec": v, "noreply": False}, {"op": "add", "key": "k1", "vspec": v, "noreply": False}, {"op": "set_many", "values": {}, "noreply": False},
+                         {"op": "get", "key": K}, {"op": "get_many", "keys": [K, "k1"]}, {"op": "replace", "key": K, "vspec": v, "noreply": True}, {"op": "gets", "key": K}]
+                if fl is not None:
+                    steps = [dict(s_, flags=fl) if s_["op"] in ("set", "add", "replace") else s_ for s_ in steps]
+                yield {"kind": kind, "cfg": {"key_prefix": b"", "default_noreply": False, "serde": "pickle"}, "steps": steps}
     # a shallow copy of the object takes over (or is made and dropped) at every position of a short history
     hs = [{"op": "set", "key": K, "value": b"5", "noreply": False}, {"op": "add", "key": K, "value": b"a", "noreply": False}, {"op": "incr", "key": K, "delta": 2},
           {"op": "get", "key": K}, {"op": "delete", "key": K, "noreply": False}, {"op": "set", "key": "k1", "value": b"n", "noreply": True}, {"op": "gets", "key": "k1"}]
